@@ -569,7 +569,7 @@ pub fn run(tier: &Tier) -> i32 {
     if st.capped {
         cov.caps_hit.push(format!("history search stopped at {} states", st.states));
     }
-    cov.rule = "single step: every MOV/XCHG/PUSH/POP/singleton operand form of syntax.md x operand values x SS:SP in {0,1,2,0xFFFE,0xFFFF,0x100} x 6 SS values, compared in full with the reference (flags unchanged, complete swap, stack cell at SS:SP). Histories: breadth-first search over all sequences of 12 push/pop events up to the stated depth from 24 initial SS:SP states, on the product of the real machine and a reference stack, states deduplicated by (registers, sparse memory). Round trips: push x; pop y as source programs. distinct_nontrivial = distinct pre-states executed Histories: every sequence of up to 3 (thorough 4) instructions over the property's instructions plus a 21-instruction context alphabet (register, memory, stack and flag traffic, data-label operands, DS/ES loaded by pop and by mov), with at least one of the property's instructions, as ONE program on ONE machine and ONE Interpreter object from 3 initial states, compared with the reference after every step (whole memory on every 16th run)".into();
+    cov.rule = "single step: every MOV/XCHG/PUSH/POP/singleton operand form of syntax.md x operand values x SS:SP in {0,1,2,0xFFFE,0xFFFF,0x100} x 6 SS values, compared in full with the reference (flags unchanged, complete swap, stack cell at SS:SP). Histories: breadth-first search over all sequences of 12 push/pop events up to the stated depth from 24 initial SS:SP states, on the product of the real machine and a reference stack, states deduplicated by (registers, sparse memory). Round trips: push x; pop y as source programs. distinct_nontrivial = distinct pre-states executed Histories: every sequence of up to 3 (thorough 4) instructions over the property's instructions plus a 22-instruction context alphabet (register, memory, stack and flag traffic, data-label operands, DS/ES loaded by pop and by mov), with at least one of the property's instructions, as ONE program on ONE machine and ONE Interpreter object from 3 initial states, compared with the reference after every step (whole memory on every 16th run)".into();
     cov.bounds = json!({"forms": fs.len(), "history_depth": depth, "history_states": st.states, "history_transitions": st.transitions, "sequence_depth": seq_depth, "sequences": seq.sequences, "sequence_steps": seq.steps, "sequence_whole_memory_audits": seq.audits, "tier": tier.name()});
     cov.assumptions = common_assumptions();
     cov.assumptions.push("push sp / pop sp are excluded from the value law (8086 and later CPUs differ); they stay in C09's totality check".into());
